@@ -80,6 +80,7 @@ def enc_point(ctx, case):
 def enc_task(ctx, task):
     """task = dict(mn, axes, pos): full product of the axes (pos = the swept operand, for the violation key)"""
     asm = kernel.boot()
+    encdrv.warm(asm)
     mn = task['mn']
     n = acc = ill = 0
     for ops in itertools.product(*task['axes']):
@@ -118,6 +119,7 @@ def text_point(ctx, case):
 
 
 def text_task(ctx, cases):
+    encdrv.warm(kernel.boot())
     for c in cases:
         text_point(ctx, c)
     ctx.sample(dict(driver='text', line=cases[0]['line']), cap=1)
